@@ -133,6 +133,7 @@ type Engine struct {
 	root       *ssa.Function
 	opaque     map[string]bool  // canonical callee names never inlined
 	globalInit map[string]*Term // initial values of package-level variables that are never reassigned after init (key: gaddr term key)
+	uniqueImpl func(*types.Func) *ssa.Function // the single production implementation of an interface method in the module, if any
 	maxRec     int              // how many recursive activations of one function may be inlined
 	stub map[string][]*Term // callee -> fixed results (composition with an outcome class of the callee)
 	hof        map[string]int   // opaque higher-order callee -> index of the function argument it runs (modelled as one synchronous call)
@@ -288,6 +289,10 @@ func (e *Engine) run(s *state) []*state {
 						if ci, ok := v.Cond.(ssa.Instruction); ok {
 							f.At = ci.Pos()
 						}
+					}
+					if contradictsContract(ns.facts, f) {
+						e.stats.pruned++
+						continue
 					}
 					ns.facts = append(ns.facts, f)
 					if !feasible(ns.facts) {
@@ -461,7 +466,17 @@ func (e *Engine) run(s *state) []*state {
 			fr.idx++
 			continue
 		case *ssa.MapUpdate:
-			s.emit(Event{Kind: "mapupdate", Recv: e.val(s, fr, v.Map), Args: []*Term{e.val(s, fr, v.Key), e.val(s, fr, v.Value)}, Pos: v.Pos(), Ctx: fr.ctx, Depth: fr.depth, InFn: fr.fn})
+			mv := e.val(s, fr, v.Value)
+			mev := Event{Kind: "mapupdate", Recv: e.val(s, fr, v.Map), Args: []*Term{e.val(s, fr, v.Key), mv}, Pos: v.Pos(), Ctx: fr.ctx, Depth: fr.depth, InFn: fr.fn}
+			if mv != nil && mv.Kind == "alloc" {
+				// a pointer entry: record what it points to as of the update
+				if et := elemType(mv.Typ); et != nil {
+					if _, isStruct := et.Underlying().(*types.Struct); isStruct {
+						mev.Binds = map[string]*Term{mv.key: e.load(s, mv, et)}
+					}
+				}
+			}
+			s.emit(mev)
 			fr.idx++
 			continue
 		case *ssa.Send:
@@ -572,6 +587,31 @@ func (e *Engine) mkDeferred(s *state, fr *frame, c *ssa.CallCommon, pos token.Po
 						if pt, ok := ct.(*types.Pointer); ok {
 							d.recv = e.load(s, d.recv, pt.Elem())
 						}
+					}
+				}
+			}
+		}
+		if d.sfn == nil {
+			// (a) interface narrowing does not change the method called: name it after the interface type the receiver value
+			// was created with (e.g. the declared result type of the call that produced it)
+			if rt := d.recv.Typ; rt != nil {
+				if _, isIface := rt.Underlying().(*types.Interface); isIface && !types.Identical(rt, c.Value.Type()) {
+					if _, isNamed := rt.(*types.Named); isNamed {
+						if obj, _, _ := types.LookupFieldOrMethod(rt, false, c.Method.Pkg(), c.Method.Name()); obj != nil {
+							if mf, ok := obj.(*types.Func); ok {
+								d.callee = mf.FullName()
+							}
+						}
+					}
+				}
+			}
+			// (b) an interface with exactly one production implementation in the module is that implementation
+			if d.callee == c.Method.FullName() && e.uniqueImpl != nil {
+				if m := e.uniqueImpl(c.Method); m != nil {
+					d.sfn = m
+					d.callee = funcName(m)
+					if e.inModule(m) && !e.opaque[d.callee] {
+						d.fn = m
 					}
 				}
 			}
@@ -886,6 +926,34 @@ func storesThrough(fn *ssa.Function, fv *ssa.FreeVar, depth int) bool {
 }
 
 // knownLen: length of slice literals and of append chains that start from one.
+// chainElems: the elements of a slice literal, an empty make, or an append chain over one, when all are known.
+func chainElems(t *Term) ([]*Term, bool) {
+	switch t.Kind {
+	case "varargs":
+		return t.Args, true
+	case "nil":
+		return nil, true
+	case "alloc":
+		if strings.HasSuffix(t.Name, "|len=0") {
+			return nil, true
+		}
+	case "append":
+		els, ok := chainElems(t.Args[0])
+		if !ok {
+			return nil, false
+		}
+		els = append([]*Term(nil), els...)
+		for _, el := range t.Args[1:] {
+			if el.Kind != "varargs" {
+				return nil, false
+			}
+			els = append(els, el.Args...)
+		}
+		return els, true
+	}
+	return nil, false
+}
+
 // zeroOf: the zero value of typ; basic types get their constant so that comparisons fold.
 func zeroOf(typ types.Type) *Term {
 	if typ != nil {
@@ -907,6 +975,12 @@ func knownLen(t *Term) (int, bool) {
 	switch t.Kind {
 	case "nil":
 		return 0, true
+	case "alloc":
+		if i := strings.LastIndex(t.Name, "|len="); i >= 0 {
+			if n, err := strconv.Atoi(t.Name[i+5:]); err == nil {
+				return n, true
+			}
+		}
 	case "zero":
 		if t.Typ != nil {
 			switch u := t.Typ.Underlying().(type) {
@@ -1091,10 +1165,12 @@ func (e *Engine) load(s *state, addr *Term, typ types.Type) *Term {
 		}
 		return mk("deref", "", 0, typ, addr)
 	case "indexaddr":
-		// element of a slice literal with a constant index
-		if addr.Args[0].Kind == "varargs" && addr.Args[1].Kind == "const" {
-			if c, ok := constVal(addr.Args[1]); ok && c.IsInt64() && c.Int64() >= 0 && int(c.Int64()) < len(addr.Args[0].Args) {
-				return addr.Args[0].Args[c.Int64()]
+		// element of a slice literal or of an append chain over one, with a constant index
+		if addr.Args[1].Kind == "const" {
+			if els, ok := chainElems(addr.Args[0]); ok {
+				if c, ok := constVal(addr.Args[1]); ok && c.IsInt64() && c.Int64() >= 0 && int(c.Int64()) < len(els) {
+					return els[c.Int64()]
+				}
 			}
 		}
 		return e.rebind(mk("deref", "", 0, typ, addr))
@@ -1293,8 +1369,13 @@ func (e *Engine) eval(s *state, fr *frame, v ssa.Value) *Term {
 	case *ssa.MakeMap:
 		return mk("alloc", fr.ctx+"/makemap@"+e.posStr(x.Pos()), 0, x.Type())
 	case *ssa.MakeSlice:
-		s.emit(Event{Kind: "makeslice", Args: []*Term{e.val(s, fr, x.Len), e.val(s, fr, x.Cap)}, Pos: x.Pos(), Ctx: fr.ctx, Depth: fr.depth, InFn: fr.fn})
-		return mk("alloc", fr.ctx+"/makeslice@"+e.posStr(x.Pos()), 0, x.Type())
+		ln := e.val(s, fr, x.Len)
+		s.emit(Event{Kind: "makeslice", Args: []*Term{ln, e.val(s, fr, x.Cap)}, Pos: x.Pos(), Ctx: fr.ctx, Depth: fr.depth, InFn: fr.fn})
+		name := fr.ctx + "/makeslice@" + e.posStr(x.Pos())
+		if ln != nil && ln.Kind == "const" {
+			name += "|len=" + ln.Name // a constant length is part of the allocation's identity (known element count)
+		}
+		return mk("alloc", name, 0, x.Type())
 	case *ssa.MakeChan:
 		return mk("alloc", fr.ctx+"/makechan@"+e.posStr(x.Pos()), 0, x.Type())
 	case *ssa.TypeAssert:
@@ -1534,6 +1615,63 @@ func nilCompare(a, b *Term) (equal bool, known bool) {
 	return false, false
 }
 
+// successResults: calls whose listed results are non-nil whenever their error result (the last one) is nil.
+var successResults = map[string][]int{
+	"golang.org/x/mod/sumdb/note.Sign":                           {1}, // the signed note
+	"golang.org/x/mod/sumdb/note.Open":                           {1},
+	"github.com/transparency-dev/formats/log.ParseCheckpoint":    {1, 3}, // checkpoint and note (result 2 is the remaining bytes)
+	"(*database/sql.DB).Begin":                                   {1},
+}
+
+// contradictsContract: f claims that a success result of one of those calls is nil although the path already established
+// that the call's error is nil.
+func contradictsContract(facts []Fact, f Fact) bool {
+	if !f.Pos || f.T.Kind != "binop" || f.T.Name != "==" {
+		return false
+	}
+	a, b := f.T.Args[0], f.T.Args[1]
+	if a.Kind == "nil" {
+		a, b = b, a
+	}
+	if b.Kind != "nil" || a.Kind != "call" {
+		return false
+	}
+	idxs, ok := successResults[a.Name]
+	if !ok {
+		return false
+	}
+	hit := false
+	for _, i := range idxs {
+		if a.Idx == i {
+			hit = true
+		}
+	}
+	if !hit {
+		return false
+	}
+	for _, g := range facts {
+		if !g.Pos || g.T.Kind != "binop" || g.T.Name != "==" {
+			continue
+		}
+		x, y := g.T.Args[0], g.T.Args[1]
+		if x.Kind == "nil" {
+			x, y = y, x
+		}
+		if y.Kind == "nil" && x.Kind == "call" && x.Name == a.Name && x.Idx != a.Idx && isErrorType(x.Typ) && len(x.Args) == len(a.Args) {
+			same := true
+			for i := range x.Args {
+				if x.Args[i] != a.Args[i] {
+					same = false
+				}
+			}
+			if same {
+				return true
+			}
+		}
+	}
+	return false
+}
+
 // isSentinel: a package-level Err* error variable (assigned once at init by errors.New: rule IMMUT-GLOBALS).
 func isSentinel(t *Term) bool {
 	if t == nil || t.Kind != "global" {
@@ -1550,6 +1688,13 @@ func identCompare(a, b *Term) (equal bool, known bool) {
 		return true, true
 	}
 	if (isSentinel(a) || a.Kind == "stubval") && (isSentinel(b) || b.Kind == "stubval") {
+		return false, true
+	}
+	// a freshly allocated error is never identical to a sentinel that existed before the call
+	fresh := func(t *Term) bool {
+		return t.Kind == "call" && t.Idx <= 1 && (t.Name == "fmt.Errorf" || t.Name == "errors.New" || t.Name == "google.golang.org/grpc/status.Error" || t.Name == "google.golang.org/grpc/status.Errorf")
+	}
+	if (isSentinel(a) && fresh(b)) || (isSentinel(b) && fresh(a)) {
 		return false, true
 	}
 	return false, false
